@@ -116,7 +116,10 @@ def gen_random(cid, engine, length, want_lref):
         elif r < 42:
             b.add("bss", b.item_name(named), rng.choice([0, 1, 2, 3, 7, 8, 9, 16, 33]))
         elif r < 57:
-            tg = b.lines_of(DATAK + ("func", "efunc", "lfunc", "import", "forward"))
+            tg = b.lines_of(DATAK + ("func", "efunc", "lfunc", "import", "forward", "export"))
+            decl = b.lines_of(("forward", "export", "import"))
+            if decl and rng.chance(1, 3):
+                tg = decl          # prefer a declaration (before or after its definition) as the base
             if not tg:
                 tg = [b.add("import", b.name("ext"))]
             b.add("ref", b.item_name(named), rng.choice(tg), rand_disp())
@@ -140,17 +143,23 @@ def gen_random(cid, engine, length, want_lref):
         elif r < 89:
             b.add("import", b.name("ext"))
         elif r < 94:
-            nm = b.name("fw")
-            b.add("forward", nm)
+            if rng.chance(1, 2):
+                nm = b.name("fw")
+                b.add("forward", nm)
+            else:
+                nm = b.name("xp")      # exported before it is defined
+                b.add("export", nm)
             b.pending_fwd.append(nm)
+            if rng.chance(1, 2):       # a ref through the declaration while the name is still undefined
+                b.add("ref", "-" if rng.chance(2, 3) else b.name(), len(b.c["lines"]) - 1, rand_disp())
         elif r < 97:
             # export of an already defined data item or function
-            cand = [l[1] for l in b.c["lines"] if l[0] in DATAK + ("func",) and l[1] != "-"
-                    and not l[1].startswith("fw")]
-            exported = {l[1] for l in b.c["lines"] if l[0] == "export"}
-            cand = [x for x in cand if x not in exported]
+            cand = [l[1] for l in b.c["lines"] if l[0] in DATAK + ("func",) and l[1] != "-"]
+            declared = {(l[0], l[1]) for l in b.c["lines"] if l[0] in ("export", "forward")}
+            kind = rng.choice(["export", "forward"])      # a declaration *after* the definition
+            cand = [x for x in cand if (kind, x) not in declared]
             if cand:
-                b.add("export", rng.choice(cand))
+                b.add(kind, rng.choice(cand))
             else:
                 b.add("bss", "-", 4)
         else:
@@ -193,6 +202,8 @@ ALPHABET = {
     "E": lambda b: b.add("expr", b.name(), b.lines_of(("efunc",))[1]),
     "l": lambda b: b.add("lref", "-", b.lines_of(("lfunc",))[0], 1, "-", 2),
     "L": lambda b: b.add("lref", b.name(), b.lines_of(("lfunc",))[0], 0, "-", 0),
+    "x": lambda b: b.add("ref", "-", b.lines_of(("export",))[0], 5),
+    "y": lambda b: b.add("ref", "-", b.lines_of(("forward",))[0], -3),
     "F": lambda b: b.add("func", b.name("fn")),
     "P": lambda b: b.add("proto", b.name("pr")),
 }
@@ -207,12 +218,25 @@ def gen_word(cid, engine, word):
         b.add("efunc", "ef32", "u32", 0xdeadbeef)
     if any(s in word for s in "lL"):
         b.add("lfunc", "lf", 2)
+    if "x" in word:
+        b.add("export", "xd")
+    if "y" in word:
+        b.add("forward", "yd")
     # when helper items were needed the word starts after a non-data item; half of those cases get a
     # leading named data item so that the word continues an open section instead
     if b.c["lines"] and rng.chance(1, 2):
         b.add("data", "lead", "u8", 3, "112233")
-    for s in word:
+    # the declared names are defined after the word, or (other half) in the middle of it
+    mid = rng.below(len(word) + 1) if rng.chance(1, 2) else len(word)
+    defs = ([["bss", "xd", 4]] if "x" in word else []) + ([["data", "yd", "u16", 1, "beef"]] if "y" in word else [])
+    for k, s in enumerate(word):
+        if k == mid:
+            for d in defs:
+                b.add(*d)
         ALPHABET[s](b)
+    if mid >= len(word):
+        for d in defs:
+            b.add(*d)
     return b.c
 
 
@@ -252,6 +276,30 @@ def directed_cases():
              ["export", "later"]],
     ]):
         cs.append({"id": f"dir-{k}", "engine": ENGINES[k % 3], "lines": lines})
+    # every relative order of {declaration, ref through it, definition} for export/forward declarations
+    # of data, bss and function definitions (the ref needs the declaration's item, so it follows it),
+    # with and without another ref placed after the definition, plus import; under each engine
+    k = 0
+    for decl in ("export", "forward"):
+        for dfn in (["data", "x", "i32", 1, "01020304"], ["bss", "x", 6], ["func", "x"]):
+            for order in ("DRX", "DXR", "XDR", "DRXR"):
+                for eng in ENGINES:
+                    lines, dpos = [["data", "lead", "u8", 1, "aa"]], None
+                    for ch in order:
+                        if ch == "D":
+                            dpos = len(lines)
+                            lines.append([decl, "x"])
+                        elif ch == "X":
+                            lines.append(list(dfn))
+                        else:
+                            lines.append(["ref", "-", dpos, 8 if len(lines) % 2 else -2])
+                            lines.append(["data", "-", "i8", 1, "77"])
+                    cs.append({"id": f"decl-{k}", "engine": eng, "lines": lines})
+                    k += 1
+    for eng in ENGINES:
+        cs.append({"id": f"decl-imp-{eng}", "engine": eng,
+                   "lines": [["import", "e1"], ["ref", "r", 0, 0], ["ref", "-", 0, 16], ["import", "e2"],
+                             ["ref", "-", 3, -16], ["ref", "-", 1, 4]]})
     return cs
 
 
@@ -555,7 +603,7 @@ def main():
     cases += corpus
     cases += directed_cases()
     thorough = ck.tier == "thorough"
-    wl = sorted(set(words("AawWqzbBrReElLFP", 4 if thorough else 3)))
+    wl = sorted(set(words("AawWqzbBrRxyeElLFP", 4 if thorough else 3)))
     for k, w in enumerate(wl):
         cases.append(gen_word(f"w-{w}", ENGINES[(k + ck.seed) % 3], w))
     n_random = 60000 if thorough else 4000
@@ -614,7 +662,8 @@ def main():
     kinds, types, engines, sizes = {}, {}, {}, {}
     distinct = set()
     nontrivial = 0
-    feat = {"zero_size_item": 0, "named_after_data": 0, "anon_after_other": 0, "ref_to_later(forward)": 0,
+    feat = {"zero_size_item": 0, "named_after_data": 0, "anon_after_other": 0, "ref_to_later(forward)": 0, "ref_via_forward_after_def": 0, "ref_via_export_before_def": 0,
+            "ref_via_export_after_def": 0,
             "ref_to_import": 0, "ref_to_func": 0, "ref_negative_disp": 0, "expr": 0, "lref_one_label": 0,
             "lref_two_labels": 0, "multi_item_section": 0, "section_size_padded": 0, "lref_defect_pattern": 0}
     for c in cases:
@@ -649,8 +698,13 @@ def main():
                     feat["anon_after_other"] += 1
             if l[0] == "ref":
                 tk = ls[int(l[2])][0]
-                if tk == "forward":
-                    feat["ref_to_later(forward)"] += 1
+                if tk in ("forward", "export"):
+                    d = find_def(ls, ls[int(l[2])][1])
+                    before = d is not None and d > i
+                    if tk == "forward":
+                        feat["ref_to_later(forward)" if before else "ref_via_forward_after_def"] += 1
+                    else:
+                        feat["ref_via_export_before_def" if before else "ref_via_export_after_def"] += 1
                 elif tk == "import":
                     feat["ref_to_import"] += 1
                 elif tk in ("func", "efunc", "lfunc"):
@@ -668,8 +722,9 @@ def main():
     ck.cov["evaluations"] = len(cases) * len(flavours)
     ck.cov["distinct_nontrivial"] = len(distinct)
     ck.cov["rule"] = ("cases = corpus + directed (every element type, zero sizes) + every word of length <=3 (quick) / "
-                      "<=4 (thorough) over a 16-symbol item alphabet (named/anonymous data of 3 sizes, bss incl. "
-                      "length 0, ref, expr, lref, func, proto) + random item "
+                      "<=4 (thorough) over an 18-symbol item alphabet (named/anonymous data of 3 sizes, bss incl. "
+                      "length 0, ref to item/import, ref through export/forward declared before the definition, expr, "
+                      "lref, func, proto) + random item "
                       "sequences of length 1..50; each run under asan(+asserts) and plain -DNDEBUG harness, engine "
                       "interp/gen/lazy by rotation. non-trivial = the module has a section with >= 2 items; "
                       "distinct = different line lists")
